@@ -22,6 +22,7 @@ type kop struct {
 	Factor gen.Factor
 	Omit   bool
 	Prefix []byte
+	Burst  []float64 // unit adds of nearby values
 }
 
 type kSub struct {
@@ -43,8 +44,38 @@ func (o kop) String() string {
 		return fmt.Sprintf("Reweight(%v)", o.Factor.F)
 	case "encdec":
 		return fmt.Sprintf("encdec(omit=%v,prefix=%d)", o.Omit, len(o.Prefix))
+	case "burst":
+		if len(o.Burst) > 4 {
+			return fmt.Sprintf("Burst(n=%d,%v…)", len(o.Burst), o.Burst[:4])
+		}
+		return fmt.Sprintf("Burst(%v)", o.Burst)
 	}
 	return o.Kind
+}
+
+// scaled returns the operation with every weight multiplied by f (unit adds become weighted adds): what C16's twin replays.
+func (o kop) scaled(f float64) []kop {
+	switch o.Kind {
+	case "add":
+		return []kop{{Kind: "addw", V: o.V, W: f}}
+	case "addw":
+		return []kop{{Kind: "addw", V: o.V, W: o.W * f}}
+	case "burst":
+		out := make([]kop, len(o.Burst))
+		for i, v := range o.Burst {
+			out[i] = kop{Kind: "addw", V: v, W: f}
+		}
+		return out
+	case "merge", "decmerge":
+		sub := &kSub{cfg: o.Other.cfg}
+		for _, x := range o.Other.ops {
+			sub.ops = append(sub.ops, x.scaled(f)...)
+		}
+		c := o
+		c.Other = sub
+		return []kop{c}
+	}
+	return []kop{o}
 }
 
 type kopGen struct {
@@ -124,8 +155,35 @@ func kopWeight(o kop) float64 {
 		return 1
 	case "addw":
 		return o.W
+	case "burst":
+		return float64(len(o.Burst))
 	}
 	return 0
+}
+
+// drawBurst draws many unit adds inside a narrow sub-window (what makes the paginated store create pages and compact).
+func (g *kopGen) drawBurst(t *rapid.T, total float64) kop {
+	n := rapid.IntRange(20, 160).Draw(t, "burstn")
+	if !g.bud.Fits(total + float64(n)) {
+		return kop{Kind: "addw", V: g.dom.clamp(g.dom.m.Value(g.dom.lo)), W: 0}
+	}
+	d := g.dom
+	w := rapid.SampledFrom([]int{1, 4, 32, 64}).Draw(t, "burstw")
+	lo := rapid.IntRange(d.lo, d.hi).Draw(t, "burstlo")
+	hi := lo + w - 1
+	if hi > d.hi {
+		hi = d.hi
+	}
+	neg := g.prof.neg && (!g.prof.pos || rapid.Bool().Draw(t, "burstneg"))
+	vs := make([]float64, n)
+	for i := range vs {
+		v := d.clamp(d.m.Value(rapid.IntRange(lo, hi).Draw(t, "bursti")))
+		if neg {
+			v = -v
+		}
+		vs[i] = v
+	}
+	return kop{Kind: "burst", Burst: vs}
 }
 
 func (h *kSub) build() (obs.SK, *skModel) {
@@ -153,16 +211,17 @@ func (h *kSub) build() (obs.SK, *skModel) {
 
 // skUT: sketch under test with its model.
 type skUT struct {
-	cfg   skCfg
-	s     obs.SK
-	k     *skModel
-	bud   *model.Budget
-	cl    *caseLog
-	kinds map[string]bool
-	inex  int // number of operations after which the exact sum may have been re-rounded
-	adds  int
-	safeV float64 // a positive value inside the index window (memory-safe for dense stores)
-	lossy bool    // content came through a collapsing store of a merge argument: accuracy w.r.t. raw values is not promised
+	cfg       skCfg
+	s         obs.SK
+	k         *skModel
+	bud       *model.Budget
+	cl        *caseLog
+	kinds     map[string]bool
+	inex      int // number of operations after which the exact sum may have been re-rounded
+	adds      int
+	safeV     float64 // a positive value inside the index window (memory-safe for dense stores)
+	lossy     bool    // content came through a collapsing store of a merge argument: accuracy w.r.t. raw values is not promised
+	nonDyadic bool    // bin weights are products of proportions (after ChangeMapping): sums depend on map iteration order, nothing is compared exactly (DESIGN §1.1)
 }
 
 func newSkUT(c skCfg, d valDom, bud *model.Budget, cl *caseLog) *skUT {
@@ -207,6 +266,14 @@ func (u *skUT) apply(op kop) string {
 		u.k.add(op.V, op.W)
 		u.adds++
 		u.cl.labelIf(op.W == 0, "zero-weight-add")
+	case "burst":
+		for _, v := range op.Burst {
+			if err := u.s.Add(v); err != nil {
+				return fmt.Sprintf("Add(%v) refused: %v", v, err)
+			}
+			u.k.add(v, 1)
+		}
+		u.adds += len(op.Burst)
 	case "bad":
 		err := u.s.AddWithCount(op.V, op.W)
 		if err == nil && !(u.cfg.exact && op.W == 0) {
@@ -270,7 +337,7 @@ func (u *skUT) apply(op kop) string {
 		if !bytes.Equal(b[:len(op.Prefix)], op.Prefix) {
 			return "Encode modified the existing prefix of the buffer"
 		}
-		if d := obs.DiffSketch(u.fullObs(u.s, u.k, u.cfg), before, u.diffOpts()); d != "" {
+		if d := obs.DiffSketch(u.fullObs(u.s, u.k, u.cfg), before, u.diffOpts()); d != "" && !u.nonDyadic {
 			return "Encode changed the sketch: " + d
 		}
 		ns, err := decodeSketch(u.cfg, b[len(op.Prefix):], op.Omit)
@@ -323,6 +390,8 @@ func (g *kopGen) drawOp(t *rapid.T, u *skUT) kop {
 	switch kind {
 	case "add":
 		return g.drawAdd(t, total)
+	case "burst":
+		return g.drawBurst(t, total)
 	case "bad":
 		return g.drawBad(t)
 	case "merge", "decmerge":
